@@ -665,6 +665,19 @@ static void run_interleavings(void)
 			xp_outcome(cl_transcript_hash(conn[s]));
 		}
 	}
+	/* everybody leaves, one after the other: each departure walks every routing table that is left; a record that outlived its
+	 * request shows as a use of released memory (crash verdict) or as a late answer to somebody who is still there */
+	last_action = "everybody-leaves";
+	for (int s = 0; s < NSLOT; s++) {
+		if (conn[s] >= 0) {
+			model_owner_gone(s);
+			model_caller_gone(s);
+			sim_client_fin(conn[s]);
+			conn[s] = -1;
+			jx_settle();
+			observe();
+		}
+	}
 }
 
 /* ---- payload layer ------------------------------------------------------- */
